@@ -484,6 +484,17 @@ Check C17_composition_float_temperature : forall ua ub uc ta fa tb fb tc fc v,
   let via := through_base fl (through_base fl v ua ub) ub uc in
   (Rabs (RV via - RV direct) <= 400 * (u64 * (9 * (Rabs (RV v) + 1000)) + eta64))%R.
 Print Assumptions C17_composition_float_temperature.
+(* the table's categories do not mix the temperature kind with the other kinds (so the three float theorems cover
+   every convertible pair) *)
+Example C17_temperature_categories_pure :
+  forallb (fun a => forallb (fun b =>
+    negb (String.eqb (u_cat a) (u_cat b)) ||
+    match u_conv a, u_conv b with
+    | Temperature _ _, Temperature _ _ => true
+    | Temperature _ _, _ | _, Temperature _ _ => false
+    | _, _ => true
+    end) all_units) all_units = true.
+Proof. vm_compute. reflexivity. Qed.
 Example C17_temperature_units_nonempty : temperature_units <> [].
 Proof. vm_compute. discriminate. Qed.
 (* the reciprocal units of the table as it is (regenerated): the theorem's new scope *)
